@@ -10,7 +10,7 @@ use whirlpool::math::{sqrt_price_from_tick_index, tick_index_from_sqrt_price};
 
 pub fn run(tier: Tier, seed: u64) -> i32 {
     let mut rep = Report::new("C09", tier, seed);
-    rep.rule = "forward: ALL 887273 ticks enumerated (strict monotonicity, endpoints, each step within 2^-32 of sqrt(1.0001) by exact integer inequality); inverse: every tick boundary p_t, p_t-1, p_t+1 enumerated plus a random interior sample (log-uniform and uniform-inside-random-tick), expected tick by binary search in the forward table. distinct = (check kind, tick/1024 bucket, position-in-tick class)".into();
+    rep.rule = "(plus ~17 000 structured inverse inputs: 2^k, 2^k +- 1..3, runs of ones 2^k - 2^j, 2^k + 2^j and one-bit walks for k = 32..96) forward: ALL 887273 ticks enumerated (strict monotonicity, endpoints, each step within 2^-32 of sqrt(1.0001) by exact integer inequality); inverse: every tick boundary p_t, p_t-1, p_t+1 enumerated plus a random interior sample (log-uniform and uniform-inside-random-tick), expected tick by binary search in the forward table. distinct = (check kind, tick/1024 bucket, position-in-tick class)".into();
     rep.exhaustive = true;
     rep.assumptions = vec![
         "interior of each tick is sampled, not enumerated (2^96 prices)".into(),
@@ -90,6 +90,36 @@ pub fn run(tier: Tier, seed: u64) -> i32 {
             let idx = table.partition_point(|x| *x <= price) - 1;
             MIN_TICK_INDEX + idx as i32
         };
+        // structured prices (shard 0): every bit pattern the normalisation / log2 iteration branches on - 2^k, 2^k +- 1..3,
+        // runs of ones 2^k - 2^j, 2^k + 2^j, and a one-bit walk over each power of two - about 25 000 prices
+        if shard == 0 {
+            let mut pats: Vec<u128> = vec![];
+            for k in 32..=96u32 {
+                let b = 1u128 << k;
+                for d in 0..4u128 {
+                    pats.push(b + d);
+                    pats.push(b - d.min(b));
+                }
+                for j in 0..k {
+                    pats.push(b - (1u128 << j));
+                    pats.push(b + (1u128 << j));
+                    pats.push(b - (1u128 << j) - 1);
+                    pats.push((b - 1) ^ (1u128 << j));
+                }
+            }
+            for price in pats {
+                if !(MIN_SQRT_PRICE_X64..=MAX_SQRT_PRICE_X64).contains(&price) {
+                    continue;
+                }
+                let e = expect_of(price);
+                let got = tick_index_from_sqrt_price(&price);
+                acc.evaluations += 1;
+                acc.count("inverse_bit_patterns");
+                if got != e {
+                    acc.violation("inverse:bit_pattern", format!("tick_index_from_sqrt_price({price}) = {got}, expected {e} (price = {price:#x})"), json!({"price": price.to_string(), "got": got, "expected": e}));
+                }
+            }
+        }
         for k in 0..per {
             let price = if k % 2 == 0 {
                 rnd::sqrt_price(&mut r)
@@ -122,5 +152,6 @@ pub fn run(tier: Tier, seed: u64) -> i32 {
     rep.floor("forward_steps", 887_272);
     rep.floor("inverse_boundary", 2_000_000);
     rep.floor("inverse_interior", 1_000_000);
+    rep.floor("inverse_bit_patterns", 10_000);
     rep.finish()
 }
